@@ -2,7 +2,7 @@
 //! Differential vs the reference encoder, then a round trip through the real parser.
 
 use crate::adapt::*;
-use crate::hist::{exec, to_addresses, Exec};
+use crate::hist::{to_addresses, Exec};
 use ppp::v2;
 use spec::build::*;
 use spec::engine::{exhaustive, stream, stream_id, Monitor, StreamSpec, Tier};
@@ -84,6 +84,20 @@ fn gen_spec(stream_name: &str, idx: u64, rng: &mut Rng) -> Spec {
                 tlvs.push((k, n, Blob::new(rng.next() >> 16, take - 3)));
             }
         }
+        "c07-flood" => {
+            // thousands of empty TLVs: counts around 1024 / 4096 / 16384 and the maximum that fits
+            let max = room / 3;
+            let n = [1023usize, 1024, 1025, 4095, 4096, 4097, 16383, 16384, 16385, max - 1, max, 8192][(idx / 24 % 12) as usize].min(max);
+            let n = if spec::engine::small() { n % 40 + 2 } else { n };
+            let (k, nn) = named(rng);
+            for i in 0..n {
+                if i % 1000 == 7 {
+                    tlvs.push((rng.u8(), None, Blob::new(0, 0)));
+                } else {
+                    tlvs.push((k, nn, Blob::new(0, 0)));
+                }
+            }
+        }
         "c07-many" => {
             let n = rng.range(1, 40);
             for _ in 0..n {
@@ -100,9 +114,15 @@ fn gen_spec(stream_name: &str, idx: u64, rng: &mut Rng) -> Spec {
                     1 => 256,
                     2 => 255,
                     3 => 257,
+                    4 | 5 => 4,
                     _ => rng.below(20) as usize,
                 };
-                tlvs.push((k, nn, Blob::new(rng.next() >> 16, l)));
+                let seed = match rng.below(6) {
+                    0 => 0,
+                    1 => 1,
+                    _ => (rng.next() >> 16) | 2,
+                };
+                tlvs.push((k, nn, Blob::new(seed, l)));
             }
         }
     }
@@ -173,7 +193,7 @@ fn judge(s: &Spec, idx: u64, rec: &mut Recorder) {
         }
     }
     for (name, h) in histories(s) {
-        let out = exec(&h, idx, usize::MAX, &mut |_, _| {});
+        let out = crate::hist::exec_plain(&h, idx);
         rec.events(h.ops.len() as u64 + 2);
         let viol = |rec: &mut Recorder, rule: &str, detail: String| {
             rec.violation(&format!("{}:{}", rule, name), format!("hist:{}", h.text()), h.skeleton(), format!("{} via {}: {} | {}", rule, name, detail, desc));
@@ -258,10 +278,11 @@ impl Monitor for C07 {
     }
     fn streams(&self, tier: Tier) -> Vec<StreamSpec> {
         vec![
-            stream("c07-rand", tier.n(48, 200_000, 20_000_000)),
+            stream("c07-rand", tier.n(48, 600_000, 20_000_000)),
             exhaustive("c07-types", if tier == Tier::Miri { 48 } else { 24 * 268 }),
             stream("c07-fit", tier.n(0, 24 * 5 * 4, 24 * 5 * 400)),
-            stream("c07-many", tier.n(24, 48_000, 5_000_000)),
+            stream("c07-many", tier.n(24, 150_000, 5_000_000)),
+            stream("c07-flood", tier.n(2, 24 * 12, 24 * 12 * 20)),
         ]
     }
     fn run_case(&self, stream: &str, idx: u64, seed: u64, rec: &mut Recorder) {
@@ -295,7 +316,7 @@ impl Monitor for C07 {
                 ok &= m.apply(op) != Step::MustFail;
             }
             for variant in 0..4 {
-                let out = exec(&h, variant, usize::MAX, &mut |_, _| {});
+                let out = crate::hist::exec_plain(&h, variant);
                 rec.events(h.ops.len() as u64 + 2);
                 let fits = ok && m.payload_len() <= MAX_PAYLOAD;
                 match (&out, m.build()) {
